@@ -106,12 +106,42 @@ def strategy():
     # structured: concatenation of abbreviation fragments reaches deeper parser states than uniform characters
     frag = st.sampled_from(['a', 'div', 'ul', 'li', 'p', 'lorem', 'lorem2', 'lorem-', '.c', '#i', '[a=b]', '[a="b c"]', "[a='b']", '[a]', '[a.]', '[!a]',
                             '[', ']', '{t}', '{', '}', '{$#}', '$#', '$', '$$@-', '@3', '*2', '*3', '*', '>', '+', '^', '(', ')', '/', '!', ':', '-',
-                            '${1}', '${1:x}', '${x}', '\\', '"', "'", '=', ' ', '.', '#', 'x1', 'x2', 'foo', 'A', 'Foo.Bar', '..', '1/2', 'é'])
+                            '${1}', '${1:x}', '${x}', '\\', '"', "'", '=', ' ', '.', '#', 'x1', 'x2', 'foo', 'A', 'Foo.Bar', '..', '1/2', 'é',
+                            '$@^', '$@^^', '$$@^^^', '$@^-2', 'b$@^^*2', 'a*2>', 'li*3>', '(a*2>b*2>'])
     f = st.builds(lambda fs, c: {'abbr': cfgs.bound_repeats(''.join(fs)), 'cfg': c}, st.lists(frag, max_size=14), cfgs.markup_config())
     cfrag = st.sampled_from(['m', 'p', 'bd', 'c', 'bg', 'lg', 'trf', 'animic', 'pos', 'fz', '10', '-', '--', '.5', '1.', '#', '#f', '#fc0', '#t', '.', '!',
                              '+', ':', ',', '(', ')', '"', "'", 'a', 'auto', 'p', 'e', '%', '$v', '@k', '${1}', '${1:x}', ' ', '/', 'xx', 'raw', 'gt', 'é'])
     g = st.builds(lambda fs, c: {'abbr': ''.join(fs), 'cfg': c}, st.lists(cfrag, max_size=10), cfgs.css_config())
-    return st.one_of(m, c, f, g)
+    # valid structured abbreviations (G1 model: nested repeaters/groups, counters in every value position, full text and attribute forms),
+    # with parent-numbering carets spliced into counters (`$@^`, `$@^^` …) and optionally one character-level mutation
+    from vlib import abbr_gen as G, abbr_model as M
+    p_full = G.P(counters=True, counter_forms='all', mentions='full', text=0.4, text_kind='full', text_only=0.08, groups=0.2, max_items=6, max_depth=3,
+                 rep=0.45, rep_max=3, sc=0.05, nameless=0.2, names=G.NEUTRAL + G.STRUCT + ['a', 'lorem', 'img', 'label', 'input'], placeholders=True, max_nodes=150)
+    def splice(sc, carets, mut, cfg):
+        t = M.ser_script(sc)
+        if carets:
+            out, i, k = [], 0, 0
+            while i < len(t):
+                out.append(t[i])
+                if t[i] == '$' and (i + 1 >= len(t) or t[i + 1] != '$') and (i + 1 < len(t) and t[i + 1] not in '#{'):
+                    k += 1
+                    c = carets[k % len(carets)]
+                    if c:
+                        if i + 1 < len(t) and t[i + 1] == '@':
+                            out.append('@' + '^' * c)
+                            i += 1
+                        else:
+                            out.append('@' + '^' * c)
+                i += 1
+            t = ''.join(out)
+        if mut is not None:
+            pos, ch = mut
+            pos = pos % (len(t) + 1)
+            t = t[:pos] + ch + t[pos:]
+        return {'abbr': cfgs.bound_repeats(t), 'cfg': cfg}
+    h = st.builds(splice, G.scripts(p_full), st.lists(st.integers(0, 4), max_size=4),
+                  st.one_of(st.none(), st.tuples(st.integers(0, 200), st.sampled_from(A.MARKUP))), cfgs.markup_config())
+    return st.one_of(m, c, f, g, h, h)
 
 
 def shard_hypothesis(ctx, shard, nshards, n):
@@ -126,4 +156,4 @@ def run(ctx):
     ctx.exhaustive('all strings of length ≤ %d over the stylesheet alphabet (23 symbols) × 5 fixed configurations' % L)
     ctx.run_parallel('shard_prefixes')
     ctx.run_parallel('shard_mutants', extra=(ctx.pick(1500, 30000),))
-    ctx.run_parallel('shard_hypothesis', extra=(ctx.pick(400, 12000),))
+    ctx.run_parallel('shard_hypothesis', extra=(ctx.pick(300, 12000),))
